@@ -154,17 +154,21 @@ def merge_353(lines):
     one channel (consecutive or not) into a single canonical line, keep the count."""
     out = []
     acc = {}
+    nlines = {}
     for l in lines:
         m = _NUM.match(l)
-        if m and m.group(2) == "353":
+        if m and m.group(2) in ("353", "319"):
+            # 319: the channels of one WHOIS answer arrive in chunks of 30 in HashSet order - same treatment
             rest = m.group(4)
             i = rest.find(" :")
-            key = (m.group(1), m.group(3), rest[:i])
-            names = rest[i + 2:].split(" ") if i >= 0 else []
+            key = (m.group(2), m.group(1), m.group(3), rest[:i])
+            names = [x for x in rest[i + 2:].split(" ") if x] if i >= 0 else []
             if key not in acc:
                 acc[key] = []
-                out.append(("353", key))
+                nlines[key] = 0
+                out.append(("chunked", key))
             acc[key].extend(names)
+            nlines[key] += 1
         else:
             out.append(l)
     res = []
@@ -172,7 +176,11 @@ def merge_353(lines):
         if isinstance(l, tuple):
             key = l[1]
             names = sorted(acc[key])
-            res.append(":%s 353 %s %s :%s #names=%d" % (key[0], key[1], key[2], " ".join(names), len(names)))
+            if key[0] == "353":
+                res.append(":%s 353 %s %s :%s #names=%d" % (key[1], key[2], key[3], " ".join(names), len(names)))
+            else:
+                res.append(":%s 319 %s %s :%s #chans=%d #lines=%d" % (key[1], key[2], key[3], " ".join(names), len(names),
+                                                                       nlines[key]))
         else:
             res.append(l)
     return res
